@@ -116,6 +116,7 @@ def run(ctx, model):
                                   "split_by_capture does not return the pieces between consecutive captured spans",
                                   f.node.lineno, inp=inp, detail=f"spans={spans}: got {v!r}, required {want!r}")
                 _subjects(ctx, hooks, f, inp)
+    MM.subject_rule(ctx, model, "R-CURSOR", ["split_by_match", "split_by_capture", "replace"])
     ctx.floor("R-CURSOR", ctx.rule_counts.get("R-CURSOR", 0), 30, "span configurations")
 
     # ---------------- R-REPLACE
